@@ -1,0 +1,23 @@
+//go:build verif
+
+// Package verifhook re-exports, for the /verif correspondence harness only, the internal
+// ClientRecoveryStore of the 08-wasm light client. It does not exist without the `verif` build tag.
+package verifhook
+
+import (
+	storetypes "github.com/cosmos/cosmos-sdk/store/v2/types"
+
+	internaltypes "github.com/cosmos/ibc-go/modules/light-clients/08-wasm/v11/internal/types"
+)
+
+// NewClientRecoveryStore wraps internal/types.NewClientRecoveryStore.
+func NewClientRecoveryStore(subjectStore, substituteStore storetypes.KVStore) storetypes.KVStore {
+	return internaltypes.NewClientRecoveryStore(subjectStore, substituteStore)
+}
+
+// SplitPrefix wraps internal/types.SplitPrefix.
+func SplitPrefix(key []byte) ([]byte, []byte) { return internaltypes.SplitPrefix(key) }
+
+// SubjectPrefix and SubstitutePrefix return copies of the routing prefixes.
+func SubjectPrefix() []byte    { return append([]byte(nil), internaltypes.SubjectPrefix...) }
+func SubstitutePrefix() []byte { return append([]byte(nil), internaltypes.SubstitutePrefix...) }
